@@ -699,6 +699,91 @@ def c_geom(case, ctx):
 
 
 # ==============================================================================================
+# clause 2b: slim triangles and single-precision coordinates (areas only)
+
+
+def s_slim():
+    @st.composite
+    def s(draw):
+        nx, ny = draw(st.integers(2, 4)), draw(st.integers(2, 4))
+        return {
+            "grid": [nx, ny],
+            "jit": draw(st.lists(st.lists(gen.q(-0.2, 0.2), min_size=3, max_size=3), min_size=nx * ny, max_size=nx * ny)),
+            "diag": draw(st.lists(st.booleans(), min_size=(nx - 1) * (ny - 1), max_size=(nx - 1) * (ny - 1))),
+            # every triangle is squashed along one in-plane direction by this factor (aspect ratio of the triangles)
+            "aspect": draw(st.sampled_from([1.0, 1e-2, 1e-3, 1e-5, 1e-7])),
+            "dtype": draw(st.sampled_from(["float64", "float64", "float32"])),
+            "pose": draw(gen.rot_angles(3)),
+            "angles": draw(gen.rot_angles(3)),
+            "t": draw(gen.vec(3, -5, 5)),
+            "s": draw(gen.q(0.5, 3)),
+        }
+
+    return s()
+
+
+def c_slim(case, ctx):
+    """3-D meshes of slim triangles, in double or single precision: areas equal the cross-product reference (computed in
+    float64 from the stored coordinates), are unchanged by a rigid motion and scale by s^2 - to the accuracy the
+    coordinates' precision and the triangles' aspect allow (relative to the triangles' own area, not to the extent)."""
+    nx, ny = case["grid"]
+    f = float(case["aspect"])
+    dt = np.dtype(case["dtype"])
+    if dt == np.float32 and f < 1e-3:
+        f = 1e-3  # below that single precision cannot even represent the triangle's shape
+    jit = np.array(case["jit"], dtype=float)
+    flat = np.array([[i + jit[i * ny + j][0], (j + jit[i * ny + j][1]) * f, 0.0] for i in range(nx) for j in range(ny)])
+    pose = gen.rotation_from_angles(3, case["pose"])
+    P = flat.dot(pose.T).astype(dt)
+    T = []
+    for i in range(nx - 1):
+        for j in range(ny - 1):
+            a, b_, c_, d_ = i * ny + j, i * ny + j + 1, (i + 1) * ny + j, (i + 1) * ny + j + 1
+            if case["diag"][i * (ny - 1) + j]:
+                T += [[a, b_, d_], [a, d_, c_]]
+            else:
+                T += [[a, b_, c_], [b_, d_, c_]]
+    Tn = np.array(T, dtype=int)
+    ctx.event("aspect=%g dtype=%s" % (f, dt))
+    ctx.nontrivial(f < 1.0 or dt == np.float32)
+
+    def ref_areas(Q):
+        Q = np.asarray(Q, dtype=np.float64)
+        out = []
+        for tri in T:
+            u, v = Q[tri[1]] - Q[tri[0]], Q[tri[2]] - Q[tri[0]]
+            cx = (u[1] * v[2] - u[2] * v[1], u[2] * v[0] - u[0] * v[2], u[0] * v[1] - u[1] * v[0])
+            out.append(0.5 * math.sqrt(cx[0] ** 2 + cx[1] ** 2 + cx[2] ** 2))
+        return np.array(out)
+
+    eps = float(np.finfo(dt).eps)
+    # forward error of a cross-product area: eps * |u||v| / area ~ eps / aspect (relative); 50x head room
+    rel = max(1e-9, 50.0 * eps / f)
+    mesh = TriMesh(P.copy(), trilist=Tn)
+    A = np.asarray(mesh.tri_areas(), dtype=float)
+    want = ref_areas(P)
+    ctx.expect(A.shape == want.shape and bool(np.all(np.abs(A - want) <= rel * want + 1e-300)), "slim.areas_vs_reference",
+               lambda: "aspect %g %s, tolerance %.1e relative\n%s" % (f, dt, describe(A, want)))
+    R = gen.rotation_from_angles(3, case["angles"])
+    t = np.array(case["t"], dtype=float)
+    P_rig = (np.asarray(P, dtype=np.float64).dot(R.T) + t).astype(dt)
+    A_rig = np.asarray(TriMesh(P_rig, trilist=Tn).tri_areas(), dtype=float)
+    # the moved copy is re-rounded to the coordinate precision: compare each side with the reference of ITS coordinates,
+    # and the two references with each other at the precision the rounding allows
+    want_rig = ref_areas(P_rig)
+    ctx.expect(bool(np.all(np.abs(A_rig - want_rig) <= rel * want_rig + 1e-300)), "slim.areas_after_rigid_motion_vs_reference",
+               lambda: describe(A_rig, want_rig))
+    loose = max(rel, 50.0 * eps * (1.0 + float(np.abs(t).max())) / f)
+    ctx.expect(bool(np.all(np.abs(A_rig - A) <= loose * want + 1e-300)), "slim.areas_change_under_rigid_motion",
+               lambda: "tolerance %.1e relative\n%s" % (loose, describe(A_rig, A)))
+    sfac = float(case["s"])
+    P_sc = (np.asarray(P, dtype=np.float64) * sfac).astype(dt)
+    A_sc = np.asarray(TriMesh(P_sc, trilist=Tn).tri_areas(), dtype=float)
+    ctx.expect(bool(np.all(np.abs(A_sc - sfac * sfac * A) <= loose * sfac * sfac * want + 1e-300)), "slim.areas_under_uniform_scale",
+               lambda: describe(A_sc, sfac * sfac * A))
+
+
+# ==============================================================================================
 # clause 3: edges and boundary
 
 
@@ -785,4 +870,7 @@ CLAUSES = [
                 "non-trivial: non-identity rotation and >= 1 triangle of area >= 1e-3"),
     Clause("edges", c_edges, s_edges, quick=1400, thorough=32000, nt_floor=0.4,
            rule="mesh; reference undirected-edge owner counts; non-trivial: an edge shared by >= 2 triangles"),
+    Clause("slim", c_slim, s_slim, quick=600, thorough=15000, nt_floor=0.5,
+           rule="3-D grid meshes with triangles of aspect 1 .. 1e-7 in float64 / float32 coordinates, posed by a rotation; areas "
+                "vs float64 cross-product reference with tolerance 50*eps/aspect relative to each area"),
 ]
